@@ -419,7 +419,7 @@ func run(c *eng.Ctx) error {
 		plan{f36: true, roots: []root{{abs: true, depth: 0, slash: true}}, schemes: []string{namepath.Identity}},
 		plan{f36: true, roots: []root{{abs: false, depth: 0, slash: false}}, schemes: []string{namepath.Identity}},
 		plan{f36: true, roots: slashRoots, schemes: []string{namepath.Identity}})
-	k := c.N(20, 200)
+	k := c.N(20, 100)
 	c.Traces(len(plans), func(t int, rng *rand.Rand) {
 		p := plans[t]
 		if len(p.roots) == 0 {
